@@ -72,6 +72,14 @@ UNIVERSES = {
                      ("L_B_C", "lb", [1], "lcb", [2]), ("R", "up", [0], "down", [1]), ("R", "up", [1], "down", [1]),
                      ("R", "up", [0, 1], "down", [1, 0]), ("R", "up", [1, 1], "down", [0])],
            "steps": {0: ["s"], 1: ["s", "sb"], 2: ["t"]}, "attackers": [None, "att"]},
+    # every candidate constructed WITHOUT a name (add_asset names it): the library then compares `associations`
+    # before `name`, which is where its structural == stops terminating (finding, see floor_C05)
+    "U3": {"lang": "L0", "fields": {"AB": ("as", "bs"), "AA": ("up", "down")},
+           "cands": [("A", None, {}), ("A", None, {"d": 0.5}), ("B", None, {})],
+           "links": [("AB", "as", [0], "bs", [2]), ("AB", "as", [1], "bs", [2]), ("AA", "up", [0], "down", [1]),
+                     ("AA", "up", [1], "down", [1]), ("AA", "up", [0, 1], "down", [0]),
+                     ("AA", "up", [1], "down", [0]), ("AB", "as", [0, 1], "bs", [2])],
+           "steps": {0: ["s", "u"], 1: ["s"], 2: ["t"]}, "attackers": [None, "att"]},
 }
 
 FN = {
@@ -149,8 +157,7 @@ class Ref:
     def remove_assoc(self, h):
         del self.links[h]
 
-    def why_add_attacker(self, t, want_id):
-        if want_id is not None and want_id in {i for (i, _) in self.attackers.values()}: return "attacker-id-in-use"
+    def why_add_attacker(self, t, want_id):      # (the statement does not ask for unique attacker ids)
         if any(c not in self.assets for c in self.eps.get(t, {})): return "asset-not-in-model"
         return None
 
